@@ -38,6 +38,24 @@ for sid, meta, res in rows:
     wf = "yes" if t in res.get("with_failing_input", []) else ("no-failing-input-found" if res["target_detected"] else "")
     others = [p for p in res["detected_by"] if p != t]
     out.append(f"| {sid} | {t} | {title} | {trig} | {det} | {wf} | {' '.join(others)} |")
+# behaviour-preserving refactors: no check should fire
+ref = []
+for d in sorted(glob.glob(os.path.join(V, "seeded", "R-C*-*"))):
+    sid = os.path.basename(d)
+    meta = json.load(open(os.path.join(d, "meta.json")))
+    p = os.path.join(d, "result.quick.json")
+    res = json.load(open(p)) if os.path.exists(p) else None
+    ref.append((sid, meta, res))
+if ref:
+    out += ["", "## Behaviour-preserving refactors (no check should fire)", "",
+            "| seed | anchored property | refactor | checks that fired |", "|---|---|---|---|"]
+    for sid, meta, res in ref:
+        title = meta.get("title", "").replace("|", "/")
+        if len(title) > 150: title = title[:147] + "..."
+        fired = "not run" if res is None else (" ".join(res["detected_by"]) or "none")
+        out.append(f"| {sid} | {meta['property']} | {title} | {fired} |")
+    quiet = sum(1 for _, _, r in ref if r is not None and not r["detected_by"])
+    out += ["", f"{quiet} of {sum(1 for _,_,r in ref if r is not None)} refactors raise no alarm."]
 out += ["", f"{sum(1 for _,_,r in rows if r and r['target_detected'])} of {sum(1 for _,_,r in rows if r)} changes are caught by the check of the property they were aimed at"
         + (f"; missed: {', '.join(miss)}" if miss else "") + "."]
 open(os.path.join(V, "seeded", "README.md"), "w").write("\n".join(out) + "\n")
